@@ -29,6 +29,11 @@ type burstCfg struct {
 	mcSlots  int   // MemLimit of the MC_RpcCalls run that establishes the invariants (units)
 	bigFirst bool  // requests larger than RequestBufSize are issued (and admitted) first
 	holdMs   int   // probe: keep the handlers held this long after the pile-up
+	// releaseAll: all held handlers are released at once, round after round (several workers come
+	// back to the pool while several receive loops wait for one)
+	releaseAll bool
+	// abortWait: a connection waiting for request memory is abandoned and torn down while it waits
+	abortWait bool
 }
 
 type burstResp struct {
@@ -42,13 +47,14 @@ type burstResp struct {
 	Events     int      `json:"events"`
 	Hung       []int    `json:"hung"`
 	RpcLog     []string `json:"rpclog"`
+	Aborted    bool     `json:"aborted"`
 }
 
-func runBurst(c *core.Ctx, drvPath string, b burstCfg, seed int64, tag string) ([]event, burstResp, string, error) {
-	var resp burstResp
+// runBurst: crash != "" when the driver died from a panic inside pkg/rpc.
+func runBurst(c *core.Ctx, drvPath string, b burstCfg, seed int64, tag string) (evs []event, resp burstResp, race string, crash string, err error) {
 	d, err := startDriver(drvPath, 5*time.Minute)
 	if err != nil {
-		return nil, resp, "", err
+		return nil, resp, "", "", err
 	}
 	defer d.p.Close()
 	env := b.env
@@ -57,20 +63,24 @@ func runBurst(c *core.Ctx, drvPath string, b burstCfg, seed int64, tag string) (
 	}
 	out := filepath.Join(c.Scratch, "burst-"+tag+".ndjson")
 	err = d.p.Call(map[string]any{"op": "burst", "env": env, "seed": seed, "out": out, "watchdogMs": 30000,
-		"burst": map[string]any{"conns": b.conns, "calls": b.calls, "sizes": b.sizes, "cap": b.cap, "bigFirst": b.bigFirst, "holdMs": b.holdMs}}, &resp)
+		"burst": map[string]any{"conns": b.conns, "calls": b.calls, "sizes": b.sizes, "cap": b.cap, "bigFirst": b.bigFirst, "holdMs": b.holdMs,
+			"releaseAll": b.releaseAll, "abortWait": b.abortWait}}, &resp)
 	if err != nil {
-		return nil, resp, "", err
+		if line, ok := rpcPanic(err); ok {
+			return nil, resp, "", line + "\n" + err.Error(), nil
+		}
+		return nil, resp, "", "", err
 	}
 	if resp.Error != "" || resp.Panic != "" {
-		return nil, resp, "", fmt.Errorf("driver burst: %s%s", resp.Error, resp.Panic)
+		return nil, resp, "", "", fmt.Errorf("driver burst: %s%s", resp.Error, resp.Panic)
 	}
 	lines, err := readLines(out)
 	if err != nil {
-		return nil, resp, "", err
+		return nil, resp, "", "", err
 	}
-	evs, err := parseEvents(lines)
-	_, race := d.raceReport()
-	return evs, resp, race, err
+	evs, err = parseEvents(lines)
+	_, race = d.raceReport()
+	return evs, resp, race, "", err
 }
 
 func (b burstCfg) consts() map[string]string {
@@ -104,6 +114,17 @@ func runC39(c *core.Ctx) error {
 		{name: "memory-4MiB-mixed", env: envCfg{Net: "unix", MaxWorkers: 8, BufSize: 4 * miB, MemLimit: 1}, conns: 4, calls: 3,
 			sizes: []int{5 * miB, 100, 2000, 16, 4000, 8, 5 * miB, 300, 100, 2000, 16, 4000}, cap: 3,
 			memSpec: maxPacketLen, bufSpec: 4 * miB, mcSlots: 3, bigFirst: true},
+		// worker contention: many connections wait for a worker and all held handlers are released at the same
+		// moment, round after round, so that a freed worker is competed for by a woken waiter and a fresh Get
+		{name: "workers-2-contention", env: envCfg{Net: "tcp4", MaxWorkers: 2}, conns: 8, calls: c.Pick(6, 12), sizes: []int{16, 100, 2000}, cap: 2,
+			memSpec: defLimit, bufSpec: defBuf, mcSlots: 3, releaseAll: true},
+		{name: "workers-3-contention", env: envCfg{Net: "unix", MaxWorkers: 3}, conns: 8, calls: c.Pick(6, 12), sizes: []int{16, 100, 2000}, cap: 3,
+			memSpec: defLimit, bufSpec: defBuf, mcSlots: 3, releaseAll: true},
+		// aborted memory wait: 2 handlers hold the 2 memory slots, the requests of two more connections wait; the
+		// client of one of them is closed and the server tears that connection down (Unix socket: Shutdown's
+		// write fails at once) while the memory is still held; the other request must keep waiting
+		{name: "memory-wait-aborted", env: envCfg{Net: "unix", MaxWorkers: 8, BufSize: 6 * miB, MemLimit: 1}, conns: 4, calls: 1, sizes: []int{100}, cap: 2,
+			memSpec: maxPacketLen, bufSpec: 6 * miB, mcSlots: 2, abortWait: true},
 	}
 	if c.Thorough() {
 		bursts = append(bursts,
@@ -218,9 +239,12 @@ func runC39(c *core.Ctx) error {
 		bjobs = append(bjobs, func() error {
 			seed := c.Seed*100 + int64(bi)
 			judge := func(tag string) (key, what string, evs []event, resp burstResp, err error) {
-				evs, resp, race, err := runBurst(c, drvPath, b, seed, tag)
+				evs, resp, race, crash, err := runBurst(c, drvPath, b, seed, tag)
 				if err != nil {
 					return "", "", nil, resp, err
+				}
+				if crash != "" {
+					return "burst/" + b.name + "/crash", "pkg/rpc panicked during the burst: " + crash, nil, resp, nil
 				}
 				if race != "" {
 					return "", "", nil, resp, fmt.Errorf("race detector report during a burst (C38 decides about races):\n%s", race)
@@ -254,15 +278,22 @@ func runC39(c *core.Ctx) error {
 				return err
 			}
 			if key != "" {
-				key2, _, _, _, err := judge(b.name + "-repro")
-				if err != nil {
-					return err
+				// A rejected history may depend on the schedule (e.g. who wins a freed worker): the same burst
+				// is re-run in fresh processes up to confirmRuns times and reported as soon as one more history
+				// is rejected with the same key; both histories go into the replay file.
+				for attempt := 1; attempt <= confirmRuns; attempt++ {
+					key2, what2, evs2, _, err := judge(fmt.Sprintf("%s-repro%d", b.name, attempt))
+					if err != nil {
+						return err
+					}
+					if key2 == key {
+						c.Violate(key, fmt.Sprintf("%s (recurred in re-run %d: %s)", what, attempt, what2),
+							map[string]any{"burst": b.name, "env": b.env, "conns": b.conns, "calls": b.calls, "sizes": b.sizes, "cap": b.cap, "seed": seed,
+								"history": evs, "history_rerun": evs2})
+						return nil
+					}
 				}
-				if key2 == "" {
-					return fmt.Errorf("burst %s: violation not reproduced in a second run (inconclusive): %s", b.name, what)
-				}
-				c.Violate(key, what, map[string]any{"burst": b.name, "env": b.env, "conns": b.conns, "calls": b.calls, "sizes": b.sizes, "cap": b.cap, "seed": seed})
-				return nil
+				return fmt.Errorf("burst %s: rejected history did not recur in %d re-runs (inconclusive): %s", b.name, confirmRuns, what)
 			}
 			bmu.Lock()
 			defer bmu.Unlock()
@@ -270,7 +301,7 @@ func runC39(c *core.Ctx) error {
 			c.Add("trace_events_validated", len(evs))
 			c.Add("evaluations", resp.Calls)
 			peaks[b.name] = map[string]any{"requests": resp.Calls, "peak_running": resp.Peak, "cap": b.cap, "piled_up": resp.Piled,
-				"server_limit_bytes": resp.Limit, "server_max_workers": resp.MaxWorkers}
+				"server_limit_bytes": resp.Limit, "server_max_workers": resp.MaxWorkers, "memory_wait_aborted": resp.Aborted}
 			c.Logf("burst %s: %d requests, peak running %d (cap %d), piled=%v, server limit %d", b.name, resp.Calls, resp.Peak, b.cap, resp.Piled, resp.Limit)
 			if resp.Limit != int64(b.memSpec) {
 				return fmt.Errorf("burst %s: server reports request memory limit %d, the specification was instantiated with %d", b.name, resp.Limit, b.memSpec)
@@ -279,7 +310,10 @@ func runC39(c *core.Ctx) error {
 			if !resp.Piled || resp.Peak < b.cap {
 				return fmt.Errorf("vacuous: burst %s did not pile up (peak %d, expected cap %d, piled=%v)", b.name, resp.Peak, b.cap, resp.Piled)
 			}
-			if firstTrace == nil {
+			if b.abortWait && !resp.Aborted {
+				return fmt.Errorf("vacuous: burst %s: the server did not tear down the abandoned connection, no memory wait was aborted", b.name)
+			}
+			if firstTrace == nil && !b.abortWait && !b.releaseAll {
 				firstTrace, firstCfg = evs, b
 				for _, e := range evs {
 					if e.str("ev") == "enter" || e.str("ev") == "sample" {
